@@ -102,6 +102,61 @@ def handleOdeint (j : Json) : Except String Json := do
   let n ← (← j.getObjVal? "ncalls").getNat?
   pure <| Json.mkObj [("success", Solve.odeintSolve mx n)]
 
+def parseReac (j : Json) : Except String Net.Reac := do
+  let uid ← (← j.getArrVal? 0).getNat?
+  let re ← natList (← j.getArrVal? 1)
+  let pr ← natList (← j.getArrVal? 2)
+  let k ← (← j.getArrVal? 3).getNat?
+  pure ⟨uid, re, pr, k⟩
+
+def parseOp (j : Json) : Except String Net.Op := do
+  let tag ← (← j.getArrVal? 0).getStr?
+  let a ← j.getArrVal? 1
+  match tag with
+  | "add" => pure (.add (← parseReac a))
+  | "addMany" => pure (.addMany (← (← a.getArr?).toList.mapM parseReac))
+  | "removeIdx" => pure (.removeIdx (← a.getNat?))
+  | "removeIdxs" => pure (.removeIdxs (← natList a))
+  | "removeInst" => pure (.removeInst (← a.getNat?))
+  | "removeInsts" => pure (.removeInsts (← natList a))
+  | "setAllowed" => pure (.setAllowed (← natList a))
+  | "setRequired" => pure (.setRequired (← natList a))
+  | _ => throw s!"unknown op {tag}"
+
+def sortNats (l : List Nat) : List Nat := l.mergeSort (· ≤ ·)
+
+def snapshot (s : Net.State) : Json :=
+  Json.mkObj [("held", natsJson (s.held.map (·.uid))), ("skipped", natsJson (s.skipped.map (·.uid))),
+    ("species", natsJson (sortNats (Net.speciesSet s))), ("sources", natsJson (sortNats (Net.sources s))),
+    ("sinks", natsJson (sortNats (Net.sinks s)))]
+
+def handleNet (j : Json) : Except String Json := do
+  let ops ← (← (← j.getObjVal? "ops").getArr?).toList.mapM parseOp
+  let (_, snaps) := ops.foldl (fun (acc : Net.State × List Json) op =>
+    let s' := Net.step acc.1 op
+    (s', acc.2 ++ [snapshot s'])) (({} : Net.State), [])
+  pure (Json.arr snaps.toArray)
+
+/-- default-mode equality on (class, type): same class and (same type or one of them UNKNOWN = 0) -/
+def relEq (a b : Nat × Nat × Nat) : Bool := a.2.1 == b.2.1 && (a.2.2 == b.2.2 || a.2.2 == 0 || b.2.2 == 0)
+
+def handleDup (j : Json) : Except String Json := do
+  let items ← (← (← j.getObjVal? "items").getArr?).toList.mapM fun p => do
+    let c ← (← p.getArrVal? 0).getNat?
+    let t ← (← p.getArrVal? 1).getNat?
+    pure (c, t)
+  let xs : List (Nat × Nat × Nat) := (items.zipIdx 0).map fun p => (p.2, p.1.1, p.1.2)
+  let (d, f) := Net.findDup relEq xs
+  let kept := Net.dedup relEq [] xs
+  pure <| Json.mkObj [("dupidx", natsJson d), ("first", natsJson (f.map (·.1))), ("kept", natsJson (kept.map (·.1)))]
+
+def handleOrder (j : Json) : Except String Json := do
+  let items ← (← (← j.getObjVal? "items").getArr?).toList.mapM fun p => do
+    let c ← (← p.getArrVal? 0).getNat?
+    let n ← (← p.getArrVal? 1).getStr?
+    pure (Net.SpKey.mk c n)
+  pure <| Json.arr ((Net.speciesOrder items).map fun k => Json.str k.name).toArray
+
 def handle (line : String) : String :=
   match Json.parse line with
   | .error e => (Json.mkObj [("error", s!"json: {e}")]).compress
@@ -112,6 +167,9 @@ def handle (line : String) : String :=
       | "ode" => handleOde j
       | "override" => handleOverride j
       | "solve" => handleSolve j
+      | "net" => handleNet j
+      | "dup" => handleDup j
+      | "order" => handleOrder j
       | "odeint" => handleOdeint j
       | _ => throw s!"unknown cmd {cmd}"
     match r with
